@@ -48,6 +48,16 @@ def make_ds(kind, n=6, collators=None):
         def getitem_class(self, idx, ctx=None):
             return self.cls[idx]
 
+        # other item kinds ("transform wrappers for any item"): small float vectors derived from the image
+        def getitem_y(self, idx, ctx=None):
+            return self.x[idx, 0, 0].clone()
+
+        def getitem_target(self, idx, ctx=None):
+            return self.x[idx, 1, :2].clone()
+
+        def getitem_source(self, idx, ctx=None):
+            return self.x[idx, :, :4, :4].clone()
+
         def getshape_class(self):
             return 3,
 
@@ -105,11 +115,77 @@ def wrapper_recipes():
     R.append(("semseg-plain", lambda s: SemsegTransformWrapper(
         make_ds("tensor"), transforms=[T.KDSemsegRandomHorizontalFlip(), T.KDColorJitter(0.4, 0.4, 0.2, 0.1)], seed=s), ["xsemseg"]))
     R.append(("mugs", lambda s: MUGSMultiViewWrapper(make_ds("pil"), global_size=16, local_size=8, num_local_crops=2, seed=s), ["x"]))
+    # -- compositions of two features: a seeded wrapper above / below another (seeded) wrapper, observed through every item and mode
+    R.append(("xt-over-mix", lambda s: XTransformWrapper(
+        KDMixWrapper(make_ds("tensor"), mixup_p=0.8, mixup_alpha=0.8, seed=s + 100),
+        transform=[T.KDRandomHorizontalFlip(), T.KDAdditiveGaussianNoise(std=0.5)], seed=s), ["x", "class", "xclass"]))
+    R.append(("xt-over-xt-over-mix", lambda s: XTransformWrapper(XTransformWrapper(
+        KDMixWrapper(make_ds("tensor"), mixup_p=1.0, mixup_alpha=1.0, seed=s + 100),
+        transform=T.KDRandomCrop(size=12, padding=2), seed=s + 7), transform=T.KDRandomResizedCrop(size=8), seed=s), ["x", "class", "xclass"]))
+    R.append(("subset-over-xt-over-mix", lambda s: SubsetWrapper(XTransformWrapper(
+        KDMixWrapper(make_ds("tensor"), mixup_p=0.8, mixup_alpha=0.8, seed=s + 100),
+        transform=T.KDRandomCrop(size=8, padding=2), seed=s), indices=[5, 1, 3, 0]), ["x", "class"]))
+    R.append(("mix-over-xt-modes", lambda s: KDMixWrapper(
+        XTransformWrapper(make_ds("tensor"), transform=T.KDRandomCrop(size=8), seed=s + 5), mixup_p=0.8, mixup_alpha=1.0, seed=s),
+              ["x", "class", "xclass"]))
+    R.append(("xt-over-semseg", lambda s: XTransformWrapper(SemsegTransformWrapper(
+        make_ds("tensor"), transforms=[T.KDSemsegRandomHorizontalFlip(), T.KDSemsegPad(size=20)], seed=s + 9),
+        transform=T.KDColorJitter(0.4, 0.4, 0.2, 0.1), seed=s), ["x", "semseg"]))
+    R.append(("xt-over-multiview", lambda s: XTransformWrapper(KDMultiViewWrapper(
+        make_ds("tensor"), configs=[(2, T.KDRandomResizedCrop(size=8))], seed=s + 11),
+        transform=[T.KDAdditiveGaussianNoise(std=0.3)], seed=s), ["x", "class"]))
+    # -- transform wrappers of the other item kinds, other input data types
+    from kappadata.wrappers.sample_wrappers.y_transform_wrapper import YTransformWrapper
+    from kappadata.wrappers.sample_wrappers.target_transform_wrapper import TargetTransformWrapper
+    from kappadata.wrappers.sample_wrappers.source_transform_wrapper import SourceTransformWrapper
+    R.append(("yt", lambda s: YTransformWrapper(make_ds("tensor"), transform=T.KDAdditiveGaussianNoise(std=0.3), seed=s), ["x", "y"]))
+    R.append(("tt-over-xt", lambda s: TargetTransformWrapper(
+        XTransformWrapper(make_ds("tensor"), transform=T.KDRandomCrop(size=8), seed=s + 3),
+        transform=[T.KDAdditiveGaussianNoise(std=0.3), T.KDRandomAdditiveGaussianNoise(std=0.2, p=0.5)], seed=s), ["target", "x"]))
+    R.append(("st", lambda s: SourceTransformWrapper(make_ds("tensor"), transform=T.KDRandomCrop(size=3, padding=1), seed=s), ["source"]))
+    R.append(("xt-pil", lambda s: XTransformWrapper(make_ds("pil"), transform=[
+        T.KDRandomResizedCrop(size=8), T.KDRandomHorizontalFlip(), T.KDColorJitter(0.4, 0.4, 0.2, 0.1)], seed=s), ["class", "x"]))
     return R
 
 
-def get_item(w, item, i):
-    return getattr(w, f"getitem_{item}")(i)
+MULTI_LAYER = ("subset-over-xt", "xt-over-xt", "mix-over-xt", "xt-over-mix", "xt-over-xt-over-mix", "subset-over-xt-over-mix", "mix-over-xt-modes",
+               "xt-over-semseg", "xt-over-multiview", "tt-over-xt")
+ATOMIC_ITEMS = ("x", "class", "semseg", "y", "target", "source")
+FUSED = {"xclass": [("x", "class")], "xsemseg": [("x", "semseg")]}
+
+
+def observations(items):
+    """what is requested from a stack: the item getters themselves and -- the property's observation point -- ModeWrapper(stack, mode)[i] for
+    modes built from the atomic items (each alone, all of them in both orders, with a leading index): a mode decides which (fused) getter of the
+    stack is taken"""
+    atoms = [it for it in items if it in ATOMIC_ITEMS]
+    for it in items:
+        for a, b in FUSED.get(it, ()):
+            atoms += [x for x in (a, b) if x not in atoms]
+    modes = []
+    for m in [atoms[0]] + ([" ".join(atoms), " ".join(reversed(atoms)), "index " + " ".join(atoms)] if len(atoms) > 1 else ["index " + atoms[0]]):
+        if m not in modes:
+            modes.append(m)
+    return list(items) + [f"mode:{m}" for m in modes]
+
+
+def get_item(w, item, i, mw=None):
+    """one observation of the stack `w` at index i. `mode:<m>` = ModeWrapper(w, m)[i]; exceptions of this path (e.g. the assertion that an outer
+    wrapper implements the fused getter) are outcomes to be compared, not judged. `mw` caches the ModeWrappers of one stack object"""
+    if not item.startswith("mode:"):
+        return getattr(w, f"getitem_{item}")(i)
+    from kappadata.wrappers.mode_wrapper import ModeWrapper
+    mode = item[len("mode:"):]
+    try:
+        if mw is None:
+            m = ModeWrapper(w, mode=mode)
+        else:
+            if mode not in mw:
+                mw[mode] = ModeWrapper(w, mode=mode)
+            m = mw[mode]
+        return m[i]
+    except (AssertionError, NotImplementedError, AttributeError) as e:
+        return ("EXC", type(e).__name__)
 
 
 # ----------------------------------------------------------------------------------------------
@@ -258,9 +334,16 @@ class C08(PropertyCheck):
                 "translator_notes": [f"{a}: {b}" for a, b in errors + werrors], "rows_failing_obligation": self.problems}
 
     # -- behavioural oracle -----------------------------------------------------------------
-    def oracle(self, label, build, items, seed, n_access=14, rng=None):
-        rng = rng or pyrandom.Random(seed)
-        key_in = {"recipe": label, "seed": seed}
+    def oracle(self, label, build, items, seed, n_access=14, rng=None, order_key=None):
+        """fresh-instance reference (one new stack per index and observation: no history at all) vs. one long-lived stack object that is
+        requested in a random order with repeats, through every item getter and every mode, under scrambled global state, while
+        * a second stack of the same recipe with ANOTHER seed is alive and served in between (state shared between instances),
+        * the object is once replaced by a deep copy of itself (what a dataloader worker gets: a copy of a used object),
+        * the object is once initialised like a dataloader worker (its transforms get generators from the global state)"""
+        order_key = order_key if order_key is not None else f"replay:{label}:{seed}"
+        rng = rng or pyrandom.Random(order_key)
+        key_in = {"recipe": label, "seed": seed, "order_key": order_key, "n_access": n_access}
+        obs = observations(items)
         try:
             scramble(21)
             ref_w = build(seed)
@@ -269,14 +352,27 @@ class C08(PropertyCheck):
             for i in range(n):
                 scramble(300 + i)
                 w = build(seed)          # fresh instance per index: no history at all
-                ref[i] = {it: canon(get_item(w, it, i)) for it in items}
+                ref[i] = {}
+                for k, it in enumerate(obs):
+                    if it.startswith("mode:"):
+                        scramble(340 + 10 * i + k)
+                        w = build(seed)
+                    ref[i][it] = canon(get_item(w, it, i))
         except Exception as e:
             return Failure(f"seeded:{label}:exception", f"seeded wrapper recipe {label} raises {type(e).__name__}: {e}", key_in, "no exception", str(e))
-        scramble(22)
-        w = build(seed)
+        try:
+            scramble(22)
+            w = build(seed)
+            scramble(23)
+            other = build(seed + 1)
+        except Exception as e:
+            return Failure(f"seeded:{label}:exception", f"seeded wrapper recipe {label} raises {type(e).__name__}: {e}", key_in, "no exception", str(e))
+        mw, mw_other = {}, {}
         order = [rng.randrange(n) for _ in range(n_access)] + list(range(n - 1, -1, -1))
+        obs_order = [obs[rng.randrange(len(obs))] if step >= len(obs) else obs[step] for step in range(len(order))]
         for step, i in enumerate(order):
             scramble(500 + step)
+            hist = ""
             if step == n_access // 2 and label != "xt-scheduled":
                 # history: after some reads in the main process the same object is initialised as a dataloader worker would
                 # (its transforms get fresh generators from the global state) -- a seeded request must not notice
@@ -286,16 +382,37 @@ class C08(PropertyCheck):
                 except Exception as e:
                     return Failure(f"seeded:{label}:exception", f"{label}: worker_init_fn raises {type(e).__name__}: {e}", key_in, "no exception", str(e))
                 scramble(900 + step)
-            it = items[step % len(items)]
+            if step == n_access // 3:
+                # history: a copy of the used object continues (fork / pickle into a dataloader worker)
+                try:
+                    w = copy.deepcopy(w)
+                    mw = {}
+                except Exception as e:
+                    return Failure(f"seeded:{label}:exception", f"{label}: deepcopy of a used stack raises {type(e).__name__}: {e}", key_in,
+                                   "no exception", str(e))
+                hist = " (on a deep copy of the used stack)"
+            it = obs_order[step]
+            if step % 3 == 1:
+                # a live sibling with another seed is served in between
+                try:
+                    get_item(other, it, order[(step * 7 + 3) % len(order)], mw_other)
+                except Exception as e:
+                    return Failure(f"seeded:{label}:exception", f"{label}: getitem on a second instance raises {type(e).__name__}: {e}", key_in,
+                                   "no exception", str(e))
+                scramble(700 + step)
             before = global_state()
-            with RecordDefaultRng() as rec:
-                got = canon(get_item(w, it, i))
+            try:
+                got = canon(get_item(w, it, i, mw))
+            except Exception as e:
+                return Failure(f"seeded:{label}:history", f"{label}: {it}({i}) after access history {order[:step]} raises {type(e).__name__}: {e} "
+                               f"while a fresh request does not (seed={seed})", dict(key_in, order=order[:step + 1], item=it),
+                               "value of a fresh request", f"{type(e).__name__}: {e}")
             after = global_state()
             if got != ref[i][it]:
-                return Failure(f"seeded:{label}:history", f"{label}: getitem_{it}({i}) after access history {order[:step]} differs from a fresh request "
-                               f"(seed={seed})", dict(key_in, order=order[:step + 1], item=it), "value of a fresh request", "differs")
+                return Failure(f"seeded:{label}:history", f"{label}: {it}({i}) after access history {order[:step]} differs from a fresh request "
+                               f"(seed={seed}){hist}", dict(key_in, order=order[:step + 1], item=it), "value of a fresh request", "differs")
             if before != after:
-                return Failure(f"seeded:{label}:global", f"{label}: getitem_{it}({i}) consumes / depends on the process-global RNG state although a seed is set",
+                return Failure(f"seeded:{label}:global", f"{label}: {it}({i}) consumes / depends on the process-global RNG state although a seed is set",
                                dict(key_in, order=order[:step + 1], item=it), "global state untouched", "changed")
         return None
 
@@ -303,7 +420,17 @@ class C08(PropertyCheck):
         from torch.utils.data import DataLoader
         from kappadata.wrappers.mode_wrapper import ModeWrapper
         key_in = {"recipe": label, "seed": seed, "dataloader": True}
-        mode = " ".join(items[:1])
+        # all atomic items in one mode (the fused getters are taken); where ModeWrapper rejects that mode by design: the first item alone
+        mode = observations(items)[-1][len("mode:index "):]
+        try:
+            ModeWrapper(build(seed), mode=mode)
+        except AssertionError:
+            mode = mode.split(" ")[0]
+            try:
+                ModeWrapper(build(seed), mode=mode)
+            except AssertionError:
+                return None     # a stack ModeWrapper does not accept in any mode (dataset wrapper above a fused-operation wrapper)
+        key_in["mode"] = mode
         ref = None
         for nw in (0, 1, 2, 3):
             scramble(40 + nw)
@@ -313,7 +440,7 @@ class C08(PropertyCheck):
                 dl2 = DataLoader(ModeWrapper(ds.dataset, mode="index " + mode), batch_size=1, num_workers=nw, shuffle=(nw % 2 == 1),
                                  worker_init_fn=lambda wid: ds.worker_init_fn(wid, batch_size=1, updates=100),
                                  collate_fn=lambda b: b[0])
-                for idx, val in dl2:
+                for idx, *val in dl2:
                     c = canon(val)
                     if idx in out and out[idx] != c:
                         return Failure(f"seeded:{label}:dataloader", f"{label}: index {idx} differs between epochs with num_workers={nw}", key_in, None, None)
@@ -334,7 +461,7 @@ class C08(PropertyCheck):
         R = wrapper_recipes()
         reqs, metas = [], []
         for label, build, items in R:
-            if label in ("subset-over-xt", "xt-over-xt", "mix-over-xt"):
+            if label in MULTI_LAYER:
                 continue   # several seeded layers in one stack: covered by the behavioural oracle only
             for sd in seeds[1:2]:
                 try:
@@ -387,7 +514,7 @@ class C08(PropertyCheck):
                 res.cases += 1
                 res.bump("behavioural")
                 res.nontrivial.add((label, sd, tuple(items)))
-                f = self.oracle(label, build, items, sd, rng=pyrandom.Random(f"{self.seed}:{label}:{sd}"))
+                f = self.oracle(label, build, items, sd, order_key=f"{self.seed}:{label}:{sd}")
                 if f is not None and not any(g.key == f.key for g in res.failures):
                     res.failures.append(f)
         if self.tier == "thorough":
@@ -424,14 +551,14 @@ class C08(PropertyCheck):
     def replay_input(self, inp):
         for label, build, items in wrapper_recipes():
             if label == inp.get("recipe"):
-                return self.oracle(label, build, items, inp.get("seed", 1), n_access=25)
+                return self.oracle(label, build, items, inp.get("seed", 1), n_access=inp.get("n_access", 25), order_key=inp.get("order_key"))
         return None
 
 
 # ----------------------------------------------------------------------------------------------
 # C09
 # ----------------------------------------------------------------------------------------------
-def stack_recipes():
+def stack_recipes(random_keys=None):
     import kappadata.transforms as T
     import kappadata.collators as C
     from kappadata.datasets.kd_concat_dataset import KDConcatDataset
@@ -469,7 +596,125 @@ def stack_recipes():
     R.append(("interleaved-concat", lambda: _InterleavedConcatDataset([
         ModeWrapper(XTransformWrapper(make_ds("tensor", collators=cols()), transform=nested()), mode="x"),
         ModeWrapper(XTransformWrapper(make_ds("tensor"), transform=T.KDRandomCrop(size=8)), mode="x")])))
+
+    # -- every composite transform kind at the TOP of every transform slot of the dataset layer (not only nested inside a compose)
+    for tname, tt in top_level_transforms().items():
+        R.append((f"xt-top:{tname}", lambda tt=tt: ModeWrapper(XTransformWrapper(make_ds("tensor", collators=cols()), transform=tt()), mode="x")))
+        R.append((f"multiview-top:{tname}", lambda tt=tt: ModeWrapper(KDMultiViewWrapper(
+            make_ds("tensor"), configs=[(1, tt()), (2, T.KDRandomApply(transform=tt(), p=0.5))]), mode="x")))
+    R.append(("semseg-top:scheduled", lambda: ModeWrapper(SemsegTransformWrapper(make_ds("tensor"), transforms=[
+        T.KDSemsegRandomHorizontalFlip(), top_level_transforms()["scheduled"](), top_level_transforms()["compose-of-scheduled"]()]), mode="x semseg")))
+    R.append(("cached-top:scheduled", lambda: SharedDictDataset(
+        ModeWrapper(XTransformWrapper(make_ds("tensor"), transform=top_level_transforms()["scheduled-compose"]()), mode="x"),
+        transform=top_level_transforms()["scheduled"]())))
+
+    # -- one object used by two users: stacks that share a root / a whole stack / a transform object
+    def interleaved(main, *others):
+        from torch.utils.data import SequentialSampler
+        from kappadata.samplers.interleaved_sampler import InterleavedSampler, InterleavedSamplerConfig
+        return InterleavedSampler(main_sampler=SequentialSampler(main), batch_size=2, epochs=1, configs=[
+            InterleavedSamplerConfig(sampler=SequentialSampler(o), every_n_updates=1) for o in others]).dataset
+
+    def shared_root_interleaved(with_cols):
+        root = make_ds("tensor", collators=cols() if with_cols else None)
+        return interleaved(ModeWrapper(XTransformWrapper(root, transform=T.KDRandomCrop(size=8)), mode="x"),
+                           ModeWrapper(XTransformWrapper(root, transform=nested()), mode="x"),
+                           ModeWrapper(KDMultiViewWrapper(root, configs=[(2, T.KDRandomResizedCrop(size=8))]), mode="x"))
+    R.append(("interleaved-shared-root", lambda: shared_root_interleaved(False)))
+    R.append(("interleaved-shared-root-collators", lambda: shared_root_interleaved(True)))
+
+    def same_stack_two_modes():
+        st = XTransformWrapper(make_ds("tensor"), transform=nested())
+        return interleaved(ModeWrapper(st, mode="x"), ModeWrapper(st, mode="x class"))
+    R.append(("interleaved-same-stack", same_stack_two_modes))
+
+    def shared_root_concat():
+        root = make_ds("tensor")
+        return ModeWrapper(KDConcatDataset([
+            XTransformWrapper(root, transform=T.KDRandomCrop(size=8)),
+            XTransformWrapper(SubsetWrapper(root, indices=[1, 3]), transform=nested())]), mode="x")
+    R.append(("concat-shared-root", shared_root_concat))
+
+    def shared_transform_object():
+        t = nested()
+        return ModeWrapper(KDConcatDataset([XTransformWrapper(make_ds("tensor"), transform=t),
+                                            KDMultiViewWrapper(make_ds("tensor"), configs=[(1, T.KDRandomCrop(size=8))]),
+                                            XTransformWrapper(make_ds("tensor"), transform=t)]), mode="x")
+    R.append(("concat-shared-transform", shared_transform_object))
+    for key in (random_keys or []):
+        R.append((f"random:{key}", lambda key=key: random_stack(pyrandom.Random(key))[0]))
     return R
+
+
+# shared objects are visited (and re-seeded) once per user: the tree-shaped model does not describe that -- behavioural oracle only
+NO_STRUCTURAL = ("interleaved-shared-root-collators", "interleaved-same-stack", "concat-shared-transform")
+
+
+def top_level_transforms():
+    import kappadata.transforms as T
+    from kappadata.transforms.kd_transform_choice import KDTransformChoice
+    return {
+        "scheduled": lambda: T.KDScheduledTransform(transform=T.KDColorJitter(0.4, 0.4, 0.2, 0.1)),
+        "scheduled-compose": lambda: T.KDScheduledTransform(transform=[
+            T.KDRandomCrop(size=16, padding=2), T.KDRandomApply(transform=T.KDRandomGaussianBlurTV(kernel_size=3, sigma=(0.1, 2.0), p=0.5), p=0.7)]),
+        "compose-of-scheduled": lambda: T.KDComposeTransform([
+            T.KDScheduledTransform(transform=T.KDRandomThreshold(threshold=0.3, threshold_std=0.1, p=0.5)),
+            T.KDScheduledTransform(transform=[T.KDColorJitter(0.4, 0.4, 0.2, 0.1)])]),
+        "apply": lambda: T.KDRandomApply(transform=T.KDComposeTransform([T.KDRandomCrop(size=16, padding=2)]), p=0.6),
+        "patchwise": lambda: T.PatchwiseTransform(patch_size=8, transform=[T.KDRandomHorizontalFlip(), T.KDRandomCrop(size=8, padding=1)]),
+        "choice": lambda: KDTransformChoice(transforms=[T.KDRandomCrop(size=16, padding=2), T.KDScheduledTransform(
+            transform=T.KDRandomAdditiveGaussianNoise(std=0.1, p=0.5))]),
+    }
+
+
+def random_stack(rng):
+    """random dataset stack: random transform compositions (rngflow.random_composition) in every slot of random dataset layers, combined by the
+    multi-dataset layers, with or without shared roots. Returns (stack, structural_ok)"""
+    import kappadata.transforms as T
+    import kappadata.collators as C
+    from torch.utils.data import SequentialSampler
+    from kappadata.datasets.kd_concat_dataset import KDConcatDataset
+    from kappadata.datasets.kd_subset import KDSubset
+    from kappadata.wrappers import XTransformWrapper, KDMultiViewWrapper, SemsegTransformWrapper, ModeWrapper
+    from kappadata.wrappers.dataset_wrappers.subset_wrapper import SubsetWrapper
+    from kappadata.samplers.interleaved_sampler import InterleavedSampler, InterleavedSamplerConfig
+    from .rngflow import random_composition
+
+    def rand_t():
+        return random_composition(rng, rng.randint(0, 3))[1]
+
+    with_cols = []
+
+    def root():
+        cs = [C.KDMixCollator(mixup_alpha=0.8, mixup_p=1.0, dataset_mode="x class", return_ctx=False)] if rng.random() < 0.4 else None
+        with_cols.append(cs is not None)
+        return make_ds("tensor", collators=cs)
+
+    def layers(st, semseg_ok=True):
+        if rng.random() < 0.3:
+            st = SubsetWrapper(st, indices=[0, 2, 4, 5])
+        # (a fused-operation wrapper below KDConcatDataset/KDSubset is rejected by ModeWrapper by design)
+        kind = rng.choice(["xt", "xt", "xt-xt", "multiview"] + (["semseg"] if semseg_ok else []))
+        if kind == "xt":
+            return XTransformWrapper(st, transform=rand_t())
+        if kind == "xt-xt":
+            return XTransformWrapper(XTransformWrapper(st, transform=rand_t()), transform=[rand_t(), rand_t()])
+        if kind == "multiview":
+            return KDMultiViewWrapper(st, configs=[(rng.randint(1, 2), rand_t()) for _ in range(rng.randint(1, 3))])
+        return SemsegTransformWrapper(st, transforms=[T.KDSemsegRandomHorizontalFlip(), rand_t()])
+
+    shape = rng.choice(["single", "concat", "concat-shared", "interleaved", "interleaved-shared"])
+    if shape == "single":
+        return ModeWrapper(layers(root()), mode="x"), True
+    r1 = root()
+    r2 = r1 if shape.endswith("shared") else root()
+    shared_cells = shape.endswith("shared") and with_cols[0]
+    a, b = layers(r1, not shape.startswith("concat")), layers(r2, not shape.startswith("concat"))
+    if shape.startswith("concat"):
+        return ModeWrapper(KDSubset(KDConcatDataset([a, b]), indices=[0, 1, len(a), len(a) + 1]), mode="x"), not shared_cells
+    a, b = ModeWrapper(a, mode="x"), ModeWrapper(b, mode="x")
+    return InterleavedSampler(main_sampler=SequentialSampler(a), batch_size=2, epochs=1, configs=[
+        InterleavedSamplerConfig(sampler=SequentialSampler(b), every_n_updates=1)]).dataset, not shared_cells
 
 
 WI_KW = dict(batch_size=2, updates=10)
@@ -498,16 +743,17 @@ def fingerprint(g, n=8):
     return tuple(copy.deepcopy(g).random(n).tolist())
 
 
-def simulate_worker(build_or_obj, ws, rank, num_workers=None):
+def simulate_worker(build_or_obj, ws, rank, num_workers=None, kw=None):
     """what torch does in a dataloader worker: a copy of the dataset, the global RNGs seeded with the worker seed, then the hook.
     `num_workers`: what torch.utils.data.get_worker_info() reports inside the worker (None = hook called in the main process)"""
     import types
     import kappadata.transforms.base.kd_transform as kdt
+    kw = WI_KW if kw is None else kw
     st = copy.deepcopy(build_or_obj)
     np.random.seed(ws)
     torch.manual_seed(ws)
     if num_workers is None:
-        st.worker_init_fn(rank, **WI_KW)
+        st.worker_init_fn(rank, **kw)
     else:
         info = types.SimpleNamespace(id=rank, num_workers=num_workers, seed=ws, dataset=st)
         patches = [mock.patch.object(kdt, "get_worker_info", lambda: info)]
@@ -516,11 +762,155 @@ def simulate_worker(build_or_obj, ws, rank, num_workers=None):
         for p_ in patches:
             p_.start()
         try:
-            st.worker_init_fn(rank, **WI_KW)
+            st.worker_init_fn(rank, **kw)
         finally:
             for p_ in patches:
                 p_.stop()
     return st
+
+
+# ----------------------------------------------------------------------------------------------
+# black-box stream observation: probe leaves that append every random decision to the sample
+# ----------------------------------------------------------------------------------------------
+STREAM_KW = dict(batch_size=2, updates=1000)
+
+
+def probe_leaves():
+    from kappadata.transforms.base.kd_stochastic_transform import KDStochasticTransform
+    from kappadata.transforms.base.kd_transform import KDTransform
+
+    class Draw(KDStochasticTransform):
+        """one random decision per call, appended to the sample: the member's whole stream is visible in the dataset's output"""
+
+        def __call__(self, x, ctx=None):
+            return torch.concat([x, torch.tensor([self.rng.random()], dtype=torch.float64)])
+
+    class Tag(KDTransform):
+        """deterministic member (holds no generator)"""
+
+        def __call__(self, x, ctx=None):
+            return torch.concat([x, torch.tensor([-1.0], dtype=torch.float64)])
+
+    return Draw, Tag
+
+
+def probe_composition(rng, depth):
+    """random nesting of the composite transforms over probe leaves; returns (name, transform)"""
+    import kappadata.transforms as T
+    from kappadata.transforms.kd_transform_choice import KDTransformChoice
+    Draw, Tag = probe_leaves()
+
+    def go(d):
+        if d == 0 or rng.random() < 0.25:
+            return ("draw", Draw()) if rng.random() < 0.8 else ("tag", Tag())
+        kind = rng.choice(["compose", "list", "apply", "scheduled", "choice"])
+        if kind in ("compose", "list"):
+            kids = [go(d - 1) for _ in range(rng.randint(1, 3))]
+            name = "compose[" + ",".join(k[0] for k in kids) + "]"
+            return name, T.KDComposeTransform([k[1] for k in kids])
+        if kind == "apply":
+            n, t = go(d - 1)
+            pa = rng.choice([0.7, 1.0, 1.0])
+            return f"apply{pa}({n})", T.KDRandomApply(transform=t, p=pa)
+        if kind == "scheduled":
+            n, t = go(d - 1)
+            return f"scheduled({n})", T.KDScheduledTransform(transform=t)
+        kids = [go(d - 1) for _ in range(2)]
+        return "choice[" + ",".join(k[0] for k in kids) + "]", KDTransformChoice(transforms=[k[1] for k in kids])
+
+    return go(depth)
+
+
+def probe_stack(rng, shape=None, top=None):
+    """dataset stack over a root that returns an empty vector; every stochastic member is a probe leaf. Returns (description, stack)"""
+    from torch.utils.data import SequentialSampler
+    from kappadata.datasets.kd_dataset import KDDataset
+    from kappadata.datasets.kd_concat_dataset import KDConcatDataset
+    from kappadata.datasets.kd_subset import KDSubset
+    from kappadata.wrappers import XTransformWrapper, KDMultiViewWrapper, ModeWrapper
+    from kappadata.wrappers.dataset_wrappers.subset_wrapper import SubsetWrapper
+    from kappadata.samplers.interleaved_sampler import InterleavedSampler, InterleavedSamplerConfig
+    import kappadata.transforms as T
+    Draw, Tag = probe_leaves()
+
+    class _ZeroDs(KDDataset):
+        def getitem_x(self, idx, ctx=None):
+            return torch.zeros(0, dtype=torch.float64)
+
+        def __len__(self):
+            return 4
+
+    names = []
+
+    def comp(depth):
+        for _ in range(20):
+            n, t = probe_composition(rng, depth)
+            if "draw" in n:
+                break
+        return n, t
+
+    def rand_t():
+        if top == "scheduled":
+            n, t = comp(rng.randint(0, 2))
+            n, t = f"scheduled({n})", T.KDScheduledTransform(transform=t)
+        elif top == "compose-of-scheduled":
+            kids = [comp(rng.randint(0, 1)) for _ in range(rng.randint(1, 2))]
+            n = "compose[tag," + ",".join(f"scheduled({k[0]})" for k in kids) + "]"
+            t = T.KDComposeTransform([Tag()] + [T.KDScheduledTransform(transform=k[1]) for k in kids])
+        else:
+            n, t = comp(rng.randint(0, 3))
+        names.append(n)
+        return t
+
+    def layers(st):
+        if rng.random() < 0.3:
+            st = SubsetWrapper(st, indices=[0, 2, 3])
+        kind = rng.choice(["xt", "xt", "xt-xt", "multiview"])
+        names.append(kind)
+        if kind == "xt":
+            return XTransformWrapper(st, transform=rand_t())
+        if kind == "xt-xt":
+            return XTransformWrapper(XTransformWrapper(st, transform=rand_t()), transform=rand_t())
+        return KDMultiViewWrapper(st, configs=[(rng.randint(1, 2), rand_t()) for _ in range(rng.randint(1, 2))])
+
+    shape = shape or rng.choice(["single", "concat", "concat-shared", "interleaved", "interleaved-shared", "interleaved-same-stack"])
+    names.append(shape)
+    if shape == "single":
+        st = ModeWrapper(layers(_ZeroDs()), mode="x")
+    else:
+        r1 = _ZeroDs()
+        r2 = r1 if shape.endswith("shared") else _ZeroDs()
+        a = layers(r1)
+        b = a if shape == "interleaved-same-stack" else layers(r2)
+        if shape.startswith("concat"):
+            st = ModeWrapper(KDSubset(KDConcatDataset([a, b]), indices=list(range(len(a) + len(b)))[::-1]), mode="x")
+        else:
+            a, b = ModeWrapper(a, mode="x"), ModeWrapper(b, mode="x")
+            st = InterleavedSampler(main_sampler=SequentialSampler(a), batch_size=2, epochs=1, configs=[
+                InterleavedSamplerConfig(sampler=SequentialSampler(b), every_n_updates=1)]).dataset
+    return " ".join(names), st
+
+
+def decisions(sample):
+    """all random decisions contained in a sample (tensors of any nesting; dataset indices and tags are not decisions)"""
+    if torch.is_tensor(sample):
+        return [v for v in sample.flatten().tolist() if v >= 0.0] if sample.dtype == torch.float64 else []
+    if isinstance(sample, (list, tuple)):
+        return [v for e in sample for v in decisions(e)]
+    return []
+
+
+def stream_of(st, passes=2):
+    """the decisions drawn by each dataset of the stack: {dataset index (0 if the stack is one dataset): [decisions]}"""
+    out = {}
+    for _ in range(passes):
+        for i in range(len(st)):
+            sample = st[i]
+            k = 0
+            if isinstance(sample, tuple) and len(sample) == 2 and isinstance(sample[0], int):
+                k, sample = sample     # the interleaved sampler's dataset reports which dataset a sample came from
+            out.setdefault(int(k), []).extend(decisions(sample))
+    return out
 
 
 class C09(PropertyCheck):
@@ -642,6 +1032,50 @@ class C09(PropertyCheck):
                                    {"recipe": label, "wrapper_stream": True}, "differ", "equal"))
         return out
 
+    def stream_oracle(self, key, shape=None, top=None, ws_list=(11, 12, 11), num_workers=None):
+        """black box: stacks whose stochastic members are probe leaves (every decision is part of the output). Workers = deep copies of the
+        (used) parent, global RNGs seeded, hook called; the decisions each dataset of the stack then draws are compared across workers:
+        equal worker seeds => equal streams, different seeds => no common decision (each member's stream is fresh in every worker)"""
+        key_in = {"stream": True, "key": key, "shape": shape, "top": top, "worker_seeds": list(ws_list), "num_workers": num_workers}
+        try:
+            scramble(81)
+            desc, parent = probe_stack(pyrandom.Random(key), shape, top)
+        except Exception as e:
+            return None, Failure("worker:stream:exception", f"construction of probe stack raises {type(e).__name__}: {e}", key_in, "no exception", str(e))
+        key_in["stack"] = desc
+        for rnd in range(2):
+            hist = ""
+            try:
+                if rnd == 1:
+                    # history: the parent was used (and initialised once in the main process) before the workers are created from it
+                    np.random.seed(4343)
+                    torch.manual_seed(4343)
+                    parent.worker_init_fn(0, **STREAM_KW)
+                    stream_of(parent, passes=1)
+                    hist = " (parent used and initialised in the main process before)"
+                streams = []
+                for r, ws in enumerate(ws_list):
+                    st = simulate_worker(parent, ws, r if num_workers is None else r % num_workers, num_workers, kw=STREAM_KW)
+                    scramble(85 + r)       # the requests themselves must not depend on the global state any more
+                    streams.append(stream_of(st))
+            except Exception as e:
+                return desc, Failure("worker:stream:exception", f"probe stack [{desc}] raises {type(e).__name__}: {e}{hist}", key_in, "no exception", str(e))
+            for a in range(len(ws_list)):
+                for b in range(a + 1, len(ws_list)):
+                    if ws_list[a] == ws_list[b]:
+                        if streams[a] != streams[b]:
+                            return desc, Failure("worker:stream:not-reproducible", f"[{desc}]: equal worker seeds give different decision streams{hist}",
+                                                 dict(key_in, round=rnd), "equal", "differ")
+                        continue
+                    for k in sorted(set(streams[a]) & set(streams[b])):
+                        common = set(streams[a][k]) & set(streams[b][k])
+                        if common:
+                            return desc, Failure(
+                                "worker:stream:shared-stream", f"[{desc}]: dataset #{k} of the stack: workers with seeds {ws_list[a]} and {ws_list[b]} "
+                                f"share {len(common)} of {len(set(streams[a][k]))} random decisions{hist}", dict(key_in, round=rnd, dataset=k),
+                                "no common decision", f"{len(common)} common decisions")
+        return desc, None
+
     def real_worker_oracle(self, label, build):
         from torch.utils.data import DataLoader, Dataset
         key_in = {"recipe": label, "real_workers": True}
@@ -686,9 +1120,19 @@ class C09(PropertyCheck):
         res.rule = ("per stack recipe: structural probe (real worker_init_fn with recorded get_rng_from_global vs model workerInit: which cell gets the k-th "
                     "derived generator) + simulated workers (deepcopy, np.random.seed(ws), worker_init_fn) comparing every cell's stream across seeds; "
                     "distinct = (recipe, stack shape, worker seeds)")
-        R = stack_recipes()
+        n_random = 6 if self.tier == "quick" else 40
+        random_keys = [f"{self.seed}:{k}" for k in range(n_random)]
+        R = stack_recipes(random_keys)
         reqs, metas = [], []
         for label, build in R:
+            if label in NO_STRUCTURAL:
+                continue
+            if label.startswith("random:"):
+                try:
+                    if not random_stack(pyrandom.Random(label[len("random:"):]))[1]:
+                        continue
+                except Exception:  # noqa  (reported by the oracle below)
+                    continue
             try:
                 scramble(71)
                 st = build()
@@ -758,6 +1202,19 @@ class C09(PropertyCheck):
             res.failures.append(f)
         res.cases += 2
         res.bump("wrapper-level-streams", 2)
+        # black-box decision streams of probe stacks: fixed positions first (every shape, scheduled members on top), then random ones
+        plan = [(f"fixed:{shape}:{top}", shape, top) for shape in ("single", "concat-shared", "interleaved", "interleaved-shared", "interleaved-same-stack")
+                for top in (None, "scheduled", "compose-of-scheduled")]
+        plan += [(f"{self.seed}:{k}", None, None) for k in range(10 if self.tier == "quick" else 80)]
+        for j, (key, shape, top) in enumerate(plan):
+            nw = (None, 1, 3)[j % 3]
+            ws = [101 + self.seed, 202 + self.seed, 101 + self.seed]
+            desc, f = self.stream_oracle(key, shape, top, ws, nw)
+            res.cases += 1
+            res.bump(f"decision-streams(num_workers={nw})")
+            res.nontrivial.add(("stream", desc, nw))
+            if f is not None and not any(g.key == f.key for g in res.failures):
+                res.failures.append(f)
         if self.tier == "thorough":
             for label, build in R:
                 if label == "interleaved-concat":
@@ -775,18 +1232,31 @@ class C09(PropertyCheck):
 
     def search(self, budget_s, hints):
         out = []
-        for label, build in stack_recipes():
+        t0 = time.time()
+        for label, build in stack_recipes([f"search:{k}" for k in range(10)]):
+            if time.time() - t0 > budget_s:
+                break
             for nw in (None, 1, 2):
                 f = self.oracle(label, build, [7, 8, 9, 7], nw)
                 if f:
                     out.append(f)
                     break
+        for k in range(20):
+            if time.time() - t0 > budget_s:
+                break
+            f = self.stream_oracle(f"search:{k}", None, (None, "scheduled", "compose-of-scheduled")[k % 3], (7, 8, 7), (None, 2)[k % 2])[1]
+            if f:
+                out.append(f)
         return out
 
     def replay_input(self, inp):
         if inp.get("wrapper_stream"):
             return next((f for f in self.wrapper_stream_oracle() if f.input.get("recipe") == inp.get("recipe")), None)
-        for label, build in stack_recipes():
-            if label == inp.get("recipe"):
-                return self.oracle(label, build, inp.get("worker_seeds", [7, 8, 7]), inp.get("num_workers"))
+        if inp.get("stream"):
+            return self.stream_oracle(inp.get("key"), inp.get("shape"), inp.get("top"), tuple(inp.get("worker_seeds", (7, 8, 7))), inp.get("num_workers"))[1]
+        label = inp.get("recipe") or ""
+        keys = [label[len("random:"):]] if label.startswith("random:") else None
+        for lb, build in stack_recipes(keys):
+            if lb == label:
+                return self.oracle(lb, build, inp.get("worker_seeds", [7, 8, 7]), inp.get("num_workers"))
         return None
